@@ -83,6 +83,7 @@ def check_tables(fx, R):
         R.undecided('G1', 'SmartRotation3D', 'tables not readable')
         return
     R.used(md['ctor'], md['init'])
+    rot.check_forwarding(fx, R, 'G1')
     loc = fx.rel(md['ctor']['loc'])
     x, y, z = md['angles']
     # re-initialisation: what the accessors hand out after init() on an object with an arbitrary earlier state must not contain entries an earlier init() wrote
@@ -132,6 +133,7 @@ def check_tables(fx, R):
         else:
             i, j = bad[0]
             seeded = all(md['ctor_state'].fields[('this', dtab)][a, b] == got[a, b] for (a, b) in bad)
+            R.fingerprint('G1', 'SmartRotation3D:%s:%s' % (dtab, 'constructor-seed' if seeded else 'entries'), alg.numeric_fingerprint(got))
             R.violated('G1', 'SmartRotation3D:%s:%s' % (dtab, 'constructor-seed' if seeded else 'entries'),
                        'entries %s of %s differ from d%s/d%s: e.g. (%d,%d) is %s, the derivative is %s%s' % (
                            bad, dtab, tab, ax.lower(), i, j, got[i, j], want[i, j],
@@ -151,6 +153,8 @@ def check_tables(fx, R):
         outs[ax] = v
         want = Rfull.diff(ang)
         res = sp.simplify(v - want)
+        if res != sp.zeros(3, 3):
+            R.fingerprint('G1', 'SmartRotation3D::dRdAngleAround%sAxis:value' % ax, alg.numeric_fingerprint(v))
         R.check(res == sp.zeros(3, 3), 'G1', 'SmartRotation3D::dRdAngleAround%sAxis:value' % ax,
                 'dR/d%s as reported differs from the derivative of the reported R by %s' % (ax.lower(), res.tolist()), 'equals d R / d angle', loc, 'E-ALG')
         # product structure over the library's own elementary tables, judged on what the accessor RETURNS on first access after init()
@@ -365,6 +369,8 @@ def check_pose(fx, R):
     # ---- Jacobian blocks -------------------------------------------------------------------------------
     Jpp = sp.Matrix(J[0:3, 0:3])
     resid = (Jpp - A).expand()
+    if resid != sp.zeros(3, 3):
+        R.fingerprint('G3', 'operator*:J:position-block', alg.numeric_fingerprint(Jpp))
     R.check(resid == sp.zeros(3, 3), 'G3', 'operator*:J:position-block', 'd position\'/d position is written as %s; the map above is p\' = A p + t, whose derivative is A (the block uses A*R(pose) instead)' % (
         'A*P' if (Jpp - M).expand() == sp.zeros(3, 3) else Jpp.tolist()), 'position block = A', loc, 'E-ALG')
     z1 = sp.Matrix(J[0:3, 3:6]) == sp.zeros(3, 3) and sp.Matrix(J[3:6, 0:3]) == sp.zeros(3, 3)
@@ -386,6 +392,7 @@ def check_pose(fx, R):
                 R.holds('G3', inst, 'equals d %s\'/d angle%s' % (names[i], ax), loc, 'E-ALG')
             else:
                 why = diagnose(got, true[i], A, P, D, ax, i)
+                R.fingerprint('G3', 'operator*:J:%s-row' % names[i], 'col%s:%s' % (ax, alg.numeric_fingerprint(got)))
                 R.violated('G3', 'operator*:J:%s-row' % names[i], 'J(%d,%d) is not d %s\'/d angle around %s of the library\'s own map: %s' % (3 + i, 3 + k, names[i], ax, why), loc, 'E-ALG')
 
 
